@@ -122,3 +122,27 @@ Section Mixed.
     cbn [m_text m_val m_ok] in H. rewrite N in H. apply H; repeat split; assumption.
   Qed.
 End Mixed.
+
+(* the general two-label form as one lemma (start of the first location; stop of the second, incremented exactly when it is a
+   built-in int) *)
+Lemma label_slice_rewrite_any_loc (has : label -> bool) (locate : label -> outcome loc) (a b : string) (la lb : loc) :
+  has_char ch_tick a = false -> has_char ch_colon a = false -> label_resolves has locate a la ->
+  has_char ch_tick b = false -> has_char ch_colon b = false -> label_resolves has locate b lb ->
+  resolve_group has locate (bt a ++ String ch_colon (bt b)) =
+    Ret ("[" ++ Z_to_string (snd (start_of la)) ++ ":" ++ Z_to_string (snd (bump (stop_of lb))) ++ ":" ++ "" ++ "]").
+Proof.
+  intros Ta Ca Ra Tb Cb Rb.
+  exact (label_slice_rewrite_loc has locate (LP a la) (LP b lb) (conj Ta (conj Ca Ra)) (conj Tb (conj Cb Rb))).
+Qed.
+
+(* kept finding (mixed-slice-integer-end): the INTEGER end of a mixed slice does not keep its ordinary Python meaning —
+   X[`2001`:3] is rewritten to X[1:4:] (positions 1, 2, 3: position 3 included), X[`2001`:-1] to X[1:0:] (nothing), whereas with
+   the integer read as Python reads it they are positions 1, 2 resp. 1, 2, 3; and X[`2001`:2-1] raises ValueError *)
+Theorem mixed_slice_integer_stop_refuted :
+  exists (sp : span_model),
+    eval_text_span sp "X[`2001`:3]" = Ret "X[1:4:]" /\ index_sem 5 "1:4:" = Some [1; 2; 3]%nat /\ index_sem 5 "1:3" = Some [1; 2]%nat /\
+    eval_text_span sp "X[`2001`:-1]" = Ret "X[1:0:]" /\ index_sem 5 "1:0:" = Some [] /\ index_sem 5 "1:-1" = Some [1; 2; 3]%nat /\
+    eval_text_span sp "X[`2001`:2-1]" = Raise ValueError.
+Proof.
+  exists (SpanSeq [LInt 2000; LInt 2001; LInt 2002; LInt 2003; LInt 2004]). repeat split; vm_compute; reflexivity.
+Qed.
